@@ -10,14 +10,15 @@ variable {α : Type} [Add α] [Sub α] [Mul α] [Div α] [Neg α] [LT α] [LE α
 
 theorem inv_init (P : Params α) (items : List (Item α)) (lineW : α) (tol : Option α) (ovf : Bool) :
     Inv P items lineW tol 0 (initLB ovf) := by
-  refine ⟨rfl, ?_, ?_, by simp [initLB], ?_, ?_, Or.inl rfl⟩
+  refine ⟨rfl, ?_, ?_, by simp [initLB], ?_, ?_, ?_, Or.inl rfl⟩
   · intro n hn
     simp only [initLB, List.mem_singleton] at hn
     subst hn
     exact ⟨ChainOK.root, Or.inr rfl⟩
   · intro n hn; simp [initLB] at hn
   · intro f hf; omega
-  · intro _ n _ f hf; omega
+  · intro n _ f hf; omega
+  · intro n _ f hf; omega
 
 /-- a pass that runs to completion establishes the invariant at the end of the paragraph -/
 theorem passLoop_inv (hrefl : ∀ a : α, (a == a) = true) (P : Params α) (items : List (Item α)) (lineW : α)
@@ -36,11 +37,11 @@ theorem passLoop_inv (hrefl : ∀ a : α, (a == a) = true) (P : Params α) (item
   | cons it rest ih =>
     intro b lb lbf hdrop hb hI h
     simp only [passLoop] at h
-    cases h1 : itemStep P items lineW tol b (prevOf items b) it rest lb with
+    cases h1 : itemStep P items lineW tol b (prevOf items b) it rest (clearStale P (prevOf items b) lb) with
     | none => rw [h1] at h; cases h
     | some lb1 =>
       rw [h1] at h; simp only at h
-      cases h2 : drastic tol b lb1 with
+      cases h2 : drastic P tol b it rest lb1 with
       | none => rw [h2] at h; cases h
       | some lb2 =>
         rw [h2] at h; simp only at h
@@ -49,7 +50,7 @@ theorem passLoop_inv (hrefl : ∀ a : α, (a == a) = true) (P : Params α) (item
           show items[b]? = some it
           exact drop_getElem? hdrop
         rw [← hprev] at h
-        exact ih (b + 1) lb2 lbf (drop_succ_of_drop hdrop) (drop_lt_length hdrop) hI2 h
+        exact ih (b + 1) (addGlue it lb2) lbf (drop_succ_of_drop hdrop) (drop_lt_length hdrop) hI2 h
 
 /-! ### final selection -/
 
